@@ -142,9 +142,86 @@ def rule_labels(ck, facts):
     ck.ok(R, "inventory", {"formatting_sites": fmt_sites, "lookup_sites": len(cmp_sites)})
 
 
+TOKENKIND = "mimium_lang::compiler::parser::token::TokenKind"
+
+
+def rule_name_spelling(ck, facts):
+    R = "C16.name-spelling"
+    ck.rule(R, "the lowering from CST to AST classifies an identifier only by comparing its whole text with a reserved spelling (`_`): no prefix / suffix / substring test (`starts_with`, `ends_with`, `contains`, `strip_prefix`, `find` ...) on a token's text, because such a test makes the meaning of a program depend on how its variables are spelt")
+    lang = facts.crate(roles.LANG)
+    from ..rules.chainwalk import taint
+    CLASS = ("starts_with", "ends_with", "contains", "strip_prefix", "strip_suffix", "find", "rfind", "matches", "trim_start_matches", "trim_end_matches", "split_once")
+    n = 0
+    for f in lang.fns:
+        if "::compiler::parser::lower::" not in f.path or f.kind == "promoted" or "::test" in f.path:
+            continue
+        seeds = [t[6][0] for _, t in f.calls() if (callee(t) or "").split("::")[-1] in ("text_of_first_token", "token_text", "text", "text_of_token") and t[6] is not None]
+        if not seeds:
+            continue
+        n += 1
+        T = taint(f, seeds)
+        bad = None
+        for b, t in f.calls():
+            c = callee(t) or ""
+            if c.split("::")[-1] in CLASS and ("str" in c or "String" in c) and t[5] and t[5][0][0] in ("cp", "mv") and t[5][0][1][0] in T:
+                bad = (t, c.split("::")[-1])
+        key = "text|%s" % f.short.split("::")[-1]
+        if bad is None:
+            ck.ok(R, key)
+        else:
+            ck.bad(R, key, "%s classifies a token's text with `%s`: every identifier with that spelling property is treated specially (e.g. any `let` name beginning with `_` becomes a placeholder and binds nothing), so renaming a variable changes the program" % (f.short, bad[1]), f.where(bad[0]))
+    ck.floor(R, "lowering_functions_reading_token_text", n, 5)
+
+
+def rule_linebreak_uniform(ck, facts):
+    R = "C16.linebreak"
+    ck.rule(R, "whether an expression continues after a line break is decided from the next token only through the infix-precedence table: no parser method that feeds that decision singles out a token kind that the table lists as an infix operator (a binary `-` at the start of a line inside brackets must continue the expression like `+` does)")
+    lang = facts.crate(roles.LANG)
+    prec = [f for f in lang.fns if f.short.endswith("cst_parser::Parser::<'a>::get_infix_precedence") or f.short.endswith("::get_infix_precedence")]
+    ck.require(R, len(prec) >= 1, "anchor|get_infix_precedence", "infix precedence table not found")
+    if not prec:
+        return
+    pcov = cover.coverage(facts, prec[0], TOKENKIND)
+    ck.require(R, pcov is not None, "anchor|precedence-match", "get_infix_precedence does not match on TokenKind")
+    if pcov is None:
+        return
+    infix = set()
+    for v in pcov.primary_handled():
+        if v in getattr(pcov, "catchall", ()):
+            continue
+        infix.add(v)
+    ck.floor(R, "infix_operator_kinds", len(infix), 8)
+    # methods that take part in the decision: those that call has_trailing_linebreak, and bool/Option helpers they call
+    # which look at the next token
+    parser_fns = [f for f in lang.fns if "::parser::cst_parser::" in f.path and f.kind != "promoted" and "::test" not in f.path]
+    deciders = [f for f in parser_fns if any((callee(t) or "").endswith("::has_trailing_linebreak") for _, t in f.calls())]
+    helpers = set()
+    for f in deciders:
+        for _, t in f.calls():
+            g = facts.fn(callee(t) or "")
+            if g is not None and g in parser_fns and g.local_ty(0) == "bool" and g.path != prec[0].path and any((callee(t2) or "").endswith("::peek") for _, t2 in g.calls()):
+                helpers.add(g.path)
+    n = 0
+    for f in parser_fns:
+        if f.path not in helpers:
+            continue
+        n += 1
+        cov = cover.coverage(facts, f, TOKENKIND)
+        singled = sorted(v for v in (cov.primary_handled() if cov else ()) if v in infix and v not in getattr(cov, "catchall", ()))
+        key = "helper|%s" % f.short.split("::")[-1]
+        if singled:
+            ck.bad(R, key, "%s, which decides whether an expression continues on the next line, treats %s apart from the other infix operators: `(a<newline> - b)` no longer parses as one expression while `(a<newline> + b)` does, so a line break changes the program" % (f.short, singled), f.where())
+        else:
+            ck.ok(R, key)
+    ck.floor(R, "linebreak_deciders", len(deciders), 1)
+    ck.setcount("linebreak_helper_methods", n)
+
+
 def run(ck, facts, tier):
     rule_record_layout(ck, facts)
     rule_children(ck, facts)
     rule_labels(ck, facts)
+    rule_name_spelling(ck, facts)
+    rule_linebreak_uniform(ck, facts)
     ck.not_decided("invariance under whitespace, comments, line breaks and redundant parentheses (behaviour of the chumsky tokenizer and of the parser on concrete texts)")
     ck.not_decided("that adding an agreeing annotation never changes inference results")
